@@ -14,7 +14,9 @@ fn compose(i4: u64, i3: u64, i2: u64, i1: u64) -> u64 {
 /// lower-half indices at which the harness can place a page (not the null page, not where the
 /// process image / stack live)
 fn placeable(i: u64) -> bool {
-    i >= 1 && i <= 253 && i != 170 && i != 171 && i != 169
+    // 168..=174: where the kernel places a PIE image and its heap (0x55..-0x56.. plus up to 1 TiB of ASLR);
+    // above 250: the mmap area and the stack (up to 1 TiB below 0x7fff_ffff_f000)
+    i >= 1 && i <= 250 && !(168..=174).contains(&i)
 }
 
 pub fn gen(seed: u64, thorough: bool, out: &mut impl Write) {
@@ -44,7 +46,7 @@ pub fn gen(seed: u64, thorough: bool, out: &mut impl Write) {
         emit(out, &[1, addr, (r + 2) << 12, 600, 0]);
         // not recursive: one index off, each position; the entry is "active" everywhere
         for pos in 0..3 {
-            let o = if r + 1 <= 253 && placeable(r + 1) { r + 1 } else { r - 1 };
+            let o = if placeable(r + 1) { r + 1 } else { r - 1 };
             let (i3, i2, i1) = match pos { 0 => (o, r, r), 1 => (r, o, r), _ => (r, r, o) };
             emit(out, &[1, compose(r, i3, i2, i1), frame, r, frame | 1]);
         }
@@ -52,7 +54,7 @@ pub fn gen(seed: u64, thorough: bool, out: &mut impl Write) {
     // random non-recursive / recursive placements
     let n = if thorough { 6000 } else { 600 };
     for _ in 0..n {
-        let pick = |rng: &mut Rng| loop { let i = rng.below(254); if placeable(i) { return i; } };
+        let pick = |rng: &mut Rng| loop { let i = rng.below(251); if placeable(i) { return i; } };
         let r = pick(&mut rng);
         let idx = [r, if rng.chance(3, 4) { r } else { rng.below(512) }, if rng.chance(3, 4) { r } else { rng.below(512) }, if rng.chance(3, 4) { r } else { rng.below(512) }];
         let frame = 0x1000 * rng.below(1 << 40);
@@ -103,7 +105,9 @@ fn judge(c: &[u64], a: &[i128]) -> (Option<&'static str>, bool) {
             let entry = if *slot == r { *e } else { ((r + 1) << 12) | 1 };
             let active = entry & 1 != 0 && entry & 0x000f_ffff_ffff_f000 == cr3 & 0x000f_ffff_ffff_f000;
             let nt = !rec || !active || r > 1;
-            if a == [-98] { return (Some("harness: could not place the table (generator must avoid this address)"), false); }
+            // the harness could not map a page at that address in this run of the process (address-space layout
+            // randomisation put something there): nothing was asked of the crate, the case says nothing
+            if a == [-98] { return (None, false); }
             if a == [-96] { return (Some("the constructor modified the table"), nt); }
             if a == [-94] { return (Some("the textual form (Display) of the reported error names the other reason"), nt); }
             let want: Vec<i128> = if !rec { vec![-30] } else if !active { vec![-31] } else { vec![0, r as i128] };
@@ -151,7 +155,7 @@ pub fn oracle() {
         let c = parse_line(&cl);
         let a: Vec<i128> = al.split_ascii_whitespace().map(|t| if let Some(r) = t.strip_prefix('-') { -(i128::from_str_radix(r, 16).unwrap()) } else { i128::from_str_radix(t, 16).unwrap() }).collect();
         evals += 1;
-        let key = match (c.first(), a.first()) { (Some(1), Some(0)) => "new:ok", (Some(1), Some(-30)) => "new:not_recursive", (Some(1), Some(-31)) => "new:not_active", (Some(1), _) => "new:other", (Some(2), _) => "p3_page", (Some(3), _) => "p2_page", (Some(5), _) => "new:upper_half_form", _ => "p1_page" };
+        let key = match (c.first(), a.first()) { (Some(1), Some(-98)) => "new:unplaceable_in_this_run", (Some(1), Some(0)) => "new:ok", (Some(1), Some(-30)) => "new:not_recursive", (Some(1), Some(-31)) => "new:not_active", (Some(1), _) => "new:other", (Some(2), _) => "p3_page", (Some(3), _) => "p2_page", (Some(5), _) => "new:upper_half_form", _ => "p1_page" };
         *mix.entry(key.to_string()).or_default() += 1;
         let (f, nt) = judge(&c, &a);
         if nt { distinct.insert(cl.clone()); }
@@ -159,6 +163,13 @@ pub fn oracle() {
             nfails += 1;
             if nfails <= 30 { println!("FAIL {} | {} | {} | {}", ln + 1, cl, al, clause); }
         }
+    }
+    // placement failures are tolerated case by case, not wholesale
+    let unplaced = mix.get("new:unplaceable_in_this_run").copied().unwrap_or(0);
+    let placed: u64 = mix.iter().filter(|(k, _)| k.starts_with("new:") && !k.contains("unplaceable") && !k.contains("upper_half")).map(|(_, v)| *v).sum();
+    if unplaced * 4 > placed {
+        nfails += 1;
+        println!("FAIL 0 | - | - | harness: more than a fifth of the constructor cases could not be placed in this process");
     }
     let m = mix.iter().map(|(k, v)| format!("\"{}\":{}", k, v)).collect::<Vec<_>>().join(",");
     println!("SUMMARY {{\"evaluations\":{},\"oracle_failures\":{},\"distinct_nontrivial\":{},\"mix\":{{{}}}}}", evals, nfails, distinct.len(), m);
